@@ -31,7 +31,7 @@ Lemma C05_fetchall_l :
 Proof.
   intros H comb fixed fuel served dg sz buf v E.
   destruct (read_all_sound H comb fixed fuel _ dg sz buf v E) as (A & _ & C).
-  specialize (C eq_refl). simpl in C. rewrite app_nil_r in C. subst buf. split; [reflexivity|exact A].
+  specialize (C eq_refl eq_refl). simpl in C. rewrite app_nil_r in C. subst buf. split; [reflexivity|exact A].
 Qed.
 
 Lemma C05_trailing_short_malformed_rejected_l :
@@ -39,7 +39,7 @@ Lemma C05_trailing_short_malformed_rejected_l :
     (valid_digest dg = false \/ (sz < 0)%Z \/
      (Z.of_nat (length (stream (b_evs src))) < sz)%Z \/
      dg <> digest_of H (alg_of dg) (firstn (Z.to_nat sz) (stream (b_evs src))) \/
-     (b_lim src = None /\ (sz < Z.of_nat (length (stream (b_evs src))))%Z)) ->
+     (b_lim src = None /\ neof (b_evs src) = 0%nat /\ (sz < Z.of_nat (length (stream (b_evs src))))%Z)) ->
     (forall fixed buf v, read_all H comb fixed fuel src dg sz <> ((None, buf), v)) /\
     (forall out v, copy_buffer H comb true fuel src bufsz dg sz <> ((None, out), v)).
 Proof.
@@ -128,7 +128,7 @@ Lemma C05_concurrent_same_digest_l :
     (forall i n st' t w, cstep H st i n = Some st' -> nth_error (c_thr st) i = Some t ->
                          t_pc t = PIngest w [] None ->
        exists w', oci_get (c_blobs st') (d_dg (t_d t)) = Some w' /\
-                  matches_desc H (d_dg (t_d t)) (d_sz (t_d t)) w' /\ stream (t_evs t) = w').
+                  matches_desc H (d_dg (t_d t)) (d_sz (t_d t)) w' /\ (neof (t_evs t) = 0%nat -> stream (t_evs t) = w')).
 Proof.
   intros H blobs ts sched st R F E.
   pose proof (crun_inv H sched _ _ (cinv_start H blobs ts (oci_reach_ok H blobs R) F) E) as Iv.
@@ -172,7 +172,8 @@ Proof.
   destruct (read_all H false true (S (S (S (ev_weight (serve_script c))))) (mkBase (serve_script c) None) (d_dg d) (d_sz d))
     as [[e buf] v] eqn:Er.
   simpl. intro X; inversion X; subst.
-  apply read_all_sound in Er as (A & _ & C). specialize (C eq_refl). simpl in C.
+  apply read_all_sound in Er as (A & _ & C). specialize (C eq_refl).
+  assert (Z0 : neof (serve_script c) = 0%nat) by (destruct c; reflexivity). specialize (C Z0). simpl in C.
   rewrite stream_serve_script in C. subst. auto.
 Qed.
 
